@@ -53,3 +53,8 @@ func NewContext(height int64, unixSeconds int64, chainID string) sdk.Context {
 	}
 	return sdk.NewContext(cms, tmproto.Header{Height: height, Time: time.Unix(unixSeconds, 0).UTC(), ChainID: chainID}, false, log.NewNopLogger())
 }
+
+// NewContextAt is NewContext with an explicit block time.
+func NewContextAt(height int64, t time.Time, chainID string) sdk.Context {
+	return NewContext(height, 0, chainID).WithBlockTime(t)
+}
